@@ -196,7 +196,7 @@ impl Worker {
                 crate::job::Outcome::Ok => "Ok".to_string(),
                 crate::job::Outcome::Err { variant, .. } => format!("Err.{}", variant),
                 crate::job::Outcome::Panic { .. } => "Panic".to_string(),
-                crate::job::Outcome::Hang { .. } => "Hang".to_string(),
+                crate::job::Outcome::Hang { memory, .. } => if *memory { "MemGrow".to_string() } else { "Hang".to_string() },
                 crate::job::Outcome::ArgsRejected(_) => "ArgsRejected".to_string(),
             };
             bump(&mut rm.stats, &format!("outcome.{}", oc), 1);
